@@ -1388,18 +1388,31 @@ func ruleValidateBeforeAlloc(c *Ctx, p *core.Program, rule string) {
 			if !ok {
 				continue
 			}
-			bo, ok := ifi.Cond.(*ssa.BinOp)
-			if !ok {
-				continue
+			isTest := false
+			cond, _ := core.StripNot(ifi.Cond)
+			if bo, ok := cond.(*ssa.BinOp); ok {
+				_, cx := intConstOf(bo.X)
+				_, cy := intConstOf(bo.Y)
+				if cx && fromHeader(fn, bo.Y, 0) || cy && fromHeader(fn, bo.X, 0) {
+					switch bo.Op {
+					case token.LSS, token.LEQ, token.GTR, token.GEQ:
+						isTest = true
+					}
+				}
 			}
-			_, cx := intConstOf(bo.X)
-			_, cy := intConstOf(bo.Y)
-			if !(cx && fromHeader(fn, bo.Y, 0) || cy && fromHeader(fn, bo.X, 0)) {
-				continue
+			// a boolean predicate of the package applied to a header value (withinLimit(dataSize, max))
+			if cl, ok := cond.(*ssa.Call); ok {
+				if g := core.StaticFn(cl); g != nil && g.Blocks != nil && pkgOf(g) != nil && pkgOf(g).Path() == core.PkgCompress {
+					if bt, isB := cl.Type().Underlying().(*types.Basic); isB && bt.Kind() == types.Bool {
+						for _, a := range cl.Call.Args {
+							if fromHeader(fn, a, 0) {
+								isTest = true
+							}
+						}
+					}
+				}
 			}
-			switch bo.Op {
-			case token.LSS, token.LEQ, token.GTR, token.GEQ:
-			default:
+			if !isTest {
 				continue
 			}
 			fails := false
